@@ -65,6 +65,10 @@ func c06Shapes() []c06Shape {
 		{"unknown-remove", []gen.BSpec{{Kind: "unk", N: []uint64{223}, Len: 5, Flags: ref.BRemove}}, false, 2, 0},
 		{"unknown-replicate+report", []gen.BSpec{{Kind: "unk", N: []uint64{224}, Len: 3, Flags: ref.BReplicate | ref.BReport}}, true, 2, 1},
 		{"two-unknown", []gen.BSpec{{Kind: "unk", N: []uint64{225}, Len: 3, Flags: ref.BRemove}, {Kind: "unk", N: []uint64{226}, Len: 30}}, false, 1, 2},
+		// adjacent blocks flagged for removal (a removal loop must not skip the neighbour of a removed block),
+		// with a kept block in between and at both ends
+		{"adjacent-remove", []gen.BSpec{{Kind: "unk", N: []uint64{227}, Len: 3, Flags: ref.BRemove}, {Kind: "unk", N: []uint64{228}, Len: 4, Flags: ref.BRemove},
+			{Kind: "unk", N: []uint64{229}, Len: 2}, {Kind: "unk", N: []uint64{230}, Len: 1, Flags: ref.BRemove}, {Kind: "unk", N: []uint64{231}, Len: 1, Flags: ref.BRemove}, {Kind: "unk", N: []uint64{232}, Len: 1, Flags: ref.BRemove}}, true, 2, 1},
 	}
 }
 
